@@ -13,8 +13,8 @@ from hexital import Hexital  # noqa: E402
 
 def member(spec: Dict, tf: Optional[str] = None):
     """An indicator object without candles, optionally on its own timeframe (and then with
-    the timeframe_fill flag the spec asks for: inside a Hexital the Hexital's flag governs)."""
-    cfg = {"tf": tf, "fill": bool(spec.get("own_fill"))} if tf else {}
+    the timeframe_fill flag and candlestick type the spec asks for: inside a Hexital the Hexital's own settings govern)."""
+    cfg = {"tf": tf, "fill": bool(spec.get("own_fill")), "ha": bool(spec.get("own_ha"))} if tf else {}
     return X.build(spec, [], cfg)
 
 
